@@ -120,6 +120,18 @@ func buildCorpus() []*vcase {
 	add("convert", func(a *asm) { a.pushData(ff33).convert(tBuffer).convert(tBool) })
 	add("convert", func(a *asm) { a.pushData(ff33).convert(tBuffer).convert(tInt) })
 	add("convert", func(a *asm) { a.pushData(ff33[:32]).convert(tBuffer).convert(tInt) })
+	zero32 := make([]byte, 32)
+	add("convert", func(a *asm) { a.pushData(zero32).convert(tBool) })
+	add("convert", func(a *asm) { a.pushData(zero32).op(opcode.NOT) })
+	add("convert", func(a *asm) { a.pushData(neg32).op(opcode.NOT) })
+	add("convert", func(a *asm) { a.pushData(neg32).convert(tBool) })
+	add("convert", func(a *asm) { a.pushData(make([]byte, 33)).convert(tBool) })
+	add("convert", func(a *asm) { a.pushData(make([]byte, 33)).op(opcode.NZ) })
+	add("convert", func(a *asm) { a.pushData(zero32).op(opcode.NZ) })
+	add("convert", func(a *asm) { a.pushData(neg32).raw(byte(opcode.JMPIF), 3).op(opcode.PUSH1, opcode.PUSH2) })
+	add("convert", func(a *asm) { a.pushData(make([]byte, 33)).raw(byte(opcode.JMPIF), 3).op(opcode.PUSH1, opcode.PUSH2) })
+	add("convert", func(a *asm) { a.pushInt(bi(-5)).op(opcode.DUP).convert(tBytes).op(opcode.DROP, opcode.DUP, opcode.SIZE) })
+	add("convert", func(a *asm) { a.pushInt(new(big.Int).Neg(pow2(64))).op(opcode.DUP).convert(tBuffer).op(opcode.SWAP, opcode.INC) })
 	add("convert", func(a *asm) { a.pushData([]byte{}).convert(tInt) })
 	add("convert", func(a *asm) { a.op(opcode.PUSH0).convert(tBytes).op(opcode.SIZE) })
 	add("convert", func(a *asm) { a.pushInt(bi(128)).convert(tBytes) })
@@ -178,6 +190,13 @@ func buildCorpus() []*vcase {
 	add("limits", func(a *asm) { a.pushInt(bi(1023)).op(opcode.NEWARRAY, opcode.VALUES, opcode.DROP) })
 	add("limits", func(a *asm) { a.pushInt(bi(1024)).op(opcode.NEWARRAY, opcode.DUP, opcode.VALUES) })
 	add("limits", func(a *asm) { a.pushInt(bi(1023)).op(opcode.NEWARRAY, opcode.DUP, opcode.VALUES) })
+	// unreachable cyclic garbage: three self-containing arrays of 1000 elements, all dropped
+	add("limits", func(a *asm) {
+		for i := 0; i < 3; i++ {
+			a.pushInt(bi(1000)).op(opcode.NEWARRAY, opcode.DUP, opcode.DUP, opcode.APPEND, opcode.DROP)
+		}
+		a.op(opcode.PUSH1)
+	})
 	// ---- splice
 	add("splice", func(a *asm) { a.pushData([]byte{1, 2, 3}).op(opcode.PUSH1, opcode.PUSH2, opcode.SUBSTR) })
 	add("splice", func(a *asm) { a.pushData([]byte{1, 2, 3}).op(opcode.PUSH2, opcode.PUSH2, opcode.SUBSTR) })
@@ -283,6 +302,13 @@ func buildCorpus() []*vcase {
 		for i := 0; i < 16; i++ {
 			a.raw(byte(opcode.TRY), 2, 0)
 		}
+	})
+	// catch / finally block at absolute offset 0 (HasCatch / HasFinally are ">= 0")
+	add("control", func(a *asm) {
+		a.op(opcode.DEPTH, opcode.PUSH0).jmp(opcode.JMPGT, "e").raw(byte(opcode.TRY), 0xfc, 0).op(opcode.PUSH1, opcode.THROW).label("e").op(opcode.RET)
+	})
+	add("control", func(a *asm) {
+		a.op(opcode.DEPTH, opcode.PUSH0).jmp(opcode.JMPGT, "e").raw(byte(opcode.TRY), 0, 0xfc).op(opcode.PUSH1).jmp(opcode.ENDTRY, "x").label("x").op(opcode.PUSH5).label("e").op(opcode.RET)
 	})
 	add("control", func(a *asm) { a.op(opcode.PUSH1, opcode.PUSH1).raw(byte(opcode.JMPEQ), 3).op(opcode.PUSH5, opcode.PUSH6) })
 	add("control", func(a *asm) { a.pushData([]byte("x")).pushData([]byte("y")).raw(byte(opcode.JMPEQ), 3).op(opcode.PUSH5, opcode.PUSH6) })
